@@ -25,8 +25,9 @@ def specToken (t : String) : Option Bytes :=
     | ds => (Model.digitsValue ds 0 : Int)
   if t.isEmpty then some []
   else if isDec && -9223372036854775808 ≤ decVal && decVal ≤ 9223372036854775807 then some (Model.pushInt64 decVal)
-  else if b.length % 2 == 0 && b.all (fun c => (Model.hexDigitVal c).isSome) then
-    (Model.tryHex b).map Spec.pushOf
+  else if (let h := if b.length > 2 && b.getD 0 0 == 48 && b.getD 1 0 == 120 then b.drop 2 else b
+           h.length % 2 == 0 && h.all (fun c => (Model.hexDigitVal c).isSome)) then
+    (Model.tryHex (if b.length > 2 && b.getD 0 0 == 48 && b.getD 1 0 == 120 then b.drop 2 else b)).map Spec.pushOf
   else
     let name := if t.startsWith "OP_" then t else "OP_" ++ t
     match (Op.table ++ Op.aliases).find? (fun p => p.1 == name && p.1 != "OP_INVALIDOPCODE") with
